@@ -43,6 +43,16 @@ AtomsCore  == {<<COLON>>, <<AT>>, <<SEMI>>, <<QM>>, <<LBRACK>>, <<RBRACK>>, <<97
 \* ports around 65535 (after "...:6553"): '5' '6' '0' + the delimiters that end a port / turn it into a password
 AtomsPort  == {<<COLON>>, <<AT>>, <<SEMI>>, <<QM>>, <<97>>, <<53>>, <<54>>, <<48>>}
 
+\* deep back-tracking of the user part: ';' '?' ':' '@' and one letter, 8 atoms deep (late '@' after parameter / header
+\* sections, a second '@', password candidates)
+AtomsUser  == {<<COLON>>, <<AT>>, <<SEMI>>, <<QM>>, <<97>>}
+\* bracketed host already seen (with and without a user), then port / params / a late '@'
+P_br    == <<115, 105, 112, 58, 91, 97, 93>>                     \* "sip:[a]"
+P_ubr   == <<115, 105, 112, 58, 97, 64, 91, 97, 93>>             \* "sip:a@[a]"
+P_pbr   == <<115, 105, 112, 58, 97, 58, 49, 64, 91, 97, 93>>     \* "sip:a:1@[a]"  (all-digit password)
+SchemesBr  == {P_br, P_ubr, P_pbr}
+AtomsBr    == {<<COLON>>, <<AT>>, <<SEMI>>, <<QM>>, <<97>>, <<49>>}
+
 IsPrefix(p, t) == Len(p) <= Len(t) /\ SubSeq(t, 1, Len(p)) = p
 \* atoms appended so far = length beyond the longest scheme prefix (atoms are single bytes)
 NBeyond(t) == Len(t) - MaxOf({Len(p) : p \in {q \in Schemes : IsPrefix(q, t)}})
